@@ -69,6 +69,7 @@ def register(reg):
                  ('new_label_map[self.labels] = new_labels', 'new_label_map[new_labels] = self.labels'),
                  ('data_new = new_label_map[self.data]', 'data_new = new_label_map[self.data] * 1 + 0 + (self.data > 0)')],
     ))
+    register_shortcut(reg)
 
 
 def register_keep(reg):
@@ -246,4 +247,92 @@ def register_border(reg):
                   'border_mask[-border_width:] = True'),
                  ('border_mask[:border_width] = True', 'border_mask[:border_width + 1] = True'),
                  ('for i in range(border_mask.ndim):', 'for i in range(1):')],
+    ))
+
+
+def _shortcut_lemma(verifier, c, fdef, consts, tree):
+    """relabel_consecutive returns early, leaving the data alone, when its "already consecutive"
+    test holds.  Lemma over the *real* test expression (taken from the AST): under the class
+    invariant (labels strictly increasing, one per label, max_label the last one) the test implies
+    labels[k] == start_label + k for every k -- the untouched array already equals the documented
+    result.  Strictly increasing integers are at least 1 apart (step lemmas, discharged); the two
+    bounds labels[0] + k <= labels[k] <= labels[n-1] - (n-1-k) follow from them by induction on k
+    (the induction schema itself is the one inference not done by the solver)."""
+    import ast
+    import time
+
+    import z3
+    from ..common import DISCHARGED, REFUTED, UNKNOWN, Obligation
+    from ..pyvc import solve
+    from ..pyvc.contracts import make_symbolic
+    from ..pyvc.symexec import Executor, State
+    from ..pyvc.values import Unsupported, num_term, to_bool
+
+    # the shortcut: an `if` whose body is a bare `return` and whose test reads the labels
+    tests = [n for n in ast.walk(fdef) if isinstance(n, ast.If) and len(n.body) == 1
+             and isinstance(n.body[0], ast.Return) and n.body[0].value is None
+             and any(isinstance(x, ast.Attribute) and x.attr in ('labels', 'max_label')
+                     for x in ast.walk(n.test))]
+    if len(tests) != 1:
+        raise Unsupported(f'{len(tests)} early-return tests on the labels (expected one)')
+    st = State()
+    ex = Executor(verifier.reg, consts)
+    ex.cur_class = c.cls
+    for name, spec in c.params.items():
+        st.env[name] = make_symbolic(spec, name, verifier.reg, st)
+    self_ = st.env['self']
+    lab = self_.fields['labels']
+    n = num_term(lab.length)
+    s0 = num_term(st.env['start_label'])
+    L = lambda k: num_term(lab.fn(k))                               # noqa: E731
+    k, m = z3.Int('k'), z3.Int('m')
+    inv = [n == num_term(self_.fields['nlabels']), n >= 1, s0 >= 1,
+           num_term(self_.fields['max_label']) == L(n - 1),
+           z3.ForAll([k, m], z3.Implies(z3.And(0 <= k, k < m, m < n), L(k) < L(m)))]
+    ex.cl_mode = True                    # a pure test: evaluated as one formula, no path forks
+    try:
+        guard = to_bool(ex.eval1(tests[0].test, st))
+    finally:
+        ex.cl_mode = False
+    hy = list(st.hyps()) + inv
+    kk = z3.Int('kk')
+    goals = [
+        ('step-up', 'labels[k] >= labels[0] + k carries from k to k + 1 (strictly increasing integers)',
+         hy + [0 <= kk, kk + 1 < n, L(kk) >= L(0) + kk], L(kk + 1) >= L(0) + kk + 1),
+        ('step-down', 'labels[k] <= labels[n-1] - (n-1-k) carries from k + 1 to k',
+         hy + [0 <= kk, kk + 1 < n, L(kk + 1) <= L(n - 1) - (n - 1 - (kk + 1))],
+         L(kk) <= L(n - 1) - (n - 1 - kk)),
+        ('shortcut-is-the-identity-relabelling',
+         'the early-return test implies labels[k] == start_label + k for every k',
+         hy + [guard, 0 <= kk, kk < n, L(kk) >= L(0) + kk, L(kk) <= L(n - 1) - (n - 1 - kk)],
+         L(kk) == s0 + kk),
+    ]
+    base = f'pyvc:{c.key}'
+    obs = []
+    for kind, text, hyp, goal in goals:
+        o = Obligation(f'{base}/lemma:{kind}', c.props[0], 'pyvc', DISCHARGED, text=text)
+        t0 = time.time()
+        res, model, be = solve.check(list(hyp) + [z3.Not(goal)], timeout_s=verifier.timeout_s, tag=o.oid)
+        o.time_s = round(time.time() - t0, 4)
+        o.backend = be
+        if res == 'sat':
+            o.status, o.detail = REFUTED, 'counter-model for the lemma: ' + text
+        elif res != 'unsat':
+            o.status, o.detail = UNKNOWN, 'solver returned unknown'
+        obs.append(o)
+    cov = Obligation(f'{base}/cover', c.props[0], 'pyvc', DISCHARGED,
+                     text='the shortcut test is satisfiable under the invariant')
+    if solve.check(hy + [guard], timeout_s=verifier.timeout_s)[0] != 'sat':
+        cov.status, cov.detail = 'error', 'vacuous: the early-return test can never hold'
+    obs.append(cov)
+    return obs
+
+
+def register_shortcut(reg):
+    reg.add(Contract(
+        target=f'{SEG}.relabel_consecutive', props=['C05'], kind='method', tag='shortcut',
+        params={'self': 'SegmentationImage', 'start_label': 'pos'},
+        custom=_shortcut_lemma,
+        note='induction schema on the label index is the trusted inference; its base and step '
+             'cases are discharged',
     ))
